@@ -271,6 +271,14 @@ class Unsettled(Exception):
     pass
 
 
+class Runaway(Exception):
+    """The observation log of one case exceeded its budget (legitimate cases log < 100 entries): the oracle is evaluated on
+    what was seen so far - counts can only grow, so 'more than once' is already decided."""
+
+
+LOG_BUDGET = 4000
+
+
 class Tree:
     def __init__(self, world, tid, server, nprotos, fw):
         from circuits.node.protocol import Protocol
@@ -501,6 +509,8 @@ class World:
             self.rounds += 1
             if self.rounds - start > max_rounds:
                 raise Unsettled('still moving after %d rounds' % max_rounds)
+            if len(self.log) > LOG_BUDGET:
+                raise Runaway('more than %d observations in one case' % LOG_BUDGET)
             for t in self.trees:
                 t.tick()
             moved = 0
@@ -556,13 +566,18 @@ def run_calls(case):
     def bump(k, n=1):
         cnt[k] = cnt.get(k, 0) + n
     waves = sorted({c.get('wave', 0) for c in calls})
+    runaway = False
     for wv in waves:
         idxs = [i for i, c in enumerate(calls) if c.get('wave', 0) == wv]
         for i in idxs:
             w.start_call(i)
         if len(idxs) >= 2:
             bump('inflight_ge2')
-        w.settle()
+        try:
+            w.settle()
+        except Runaway:
+            runaway = True
+            break
     # ---- the oracle ------------------------------------------------------------------------------
     fw = case.get('fw', {})
     for t in w.trees:
@@ -711,6 +726,10 @@ def run_calls(case):
     nontrivial = executed_any and bool(cnt.get('cut_inside_packet') or cnt.get('inflight_ge2') or cnt.get('packet_over_4k') or
                                        cnt.get('send_firewall_rejections') or cnt.get('recv_firewall_rejections') or
                                        cnt.get('receiver_raised') or cnt.get('receiver_generator'))
+    if runaway:
+        problems = [p for p in problems if p[2] in ('dup', 'dup-h', 'tick', 'disp', 'tx')]     # only what can no longer change
+        if not problems:
+            raise Unsettled('observation log exploded without a decided obligation')
     info['nontrivial'] = nontrivial
     info['marks'] = w.marks
     info['rounds'] = w.rounds
@@ -1054,7 +1073,7 @@ def run_case(case):
 def passes(case):
     try:
         problems, info = run_case(case)
-    except Unsettled:
+    except (Unsettled, Runaway):
         return False
     return problems is not None and not problems
 
@@ -1081,7 +1100,7 @@ def sample_of(case):
 def evaluate(b, case):
     try:
         problems, info = run_case(case)
-    except Unsettled as e:
+    except (Unsettled, Runaway) as e:
         b.inconclusive_because('case did not settle: %s' % e)
         return
     except Exception as e:  # noqa: BLE001
